@@ -37,7 +37,14 @@ RULE = ('geometry family x operation x argument, crossed completely: refine(regi
         'factor 2,3,4; two-step compositions judged against the ORIGINAL columns: split_column then '
         'triangulate_column / refine (3 modes) of each piece and of both, refine of every single column (4 modes) then '
         'refine (2 modes) of each new column and of all, triangulate_column / decompose_columns of the polygons then '
-        'refine of the pieces.  A case is non-trivial when the operation changed the geometry; distinct = distinct '
+        'refine of the pieces.  Chains on ONE object, judged after every step against the columns before the step and '
+        'against the original columns: refine of the whole geometry three times in a row (every bisect sequence in '
+        '{False,True}^3 on the 3 x 2); nested local refinement three deep of every single column (the column, then '
+        'everything inside it, twice; and: the column, then everything the step before created, twice); '
+        'decompose_columns of the polygons then two refinements of the pieces; histories (refine of every region '
+        'family, decompose_columns, reduce without one column [+ refine of one column], delete a column + the '
+        'connections of one neighbour + check(fix) [+ refine all], refine > refine of the created, decomposed '
+        'polygon) each followed by split_column of EVERY quadrilateral at EVERY node on deep copies.  A case is non-trivial when the operation changed the geometry; distinct = distinct '
         '(geometry, operation, canonical argument)')
 ASSUMPTIONS = [
     'reference geometry = ref/geomodel.py on node coordinates converted exactly to Fractions; comparisons of areas '
@@ -55,6 +62,11 @@ ASSUMPTIONS = [
     'decompose_columns); for the undocumented helper triangulate_column only area, volume, surface and tiling '
     '(it leaves connections to its caller)',
     'lattice points that fall exactly on a side of a new column are counted (lattice_on_side) and not judged',
+    'chains: a step is judged against the columns before it when (columns before) x (columns after) <= 40000 '
+    '(always for the first step), and always against the original columns; steps that are not operations of this '
+    'property (reduce, delete_column + delete_connection + check(fix)) are histories only: the chain goes on only '
+    'if the geometry is conforming by the reference after them (connections = common sides), the snapshots are '
+    'then taken afresh, and nothing is asserted about them here (C10 does that)',
     'column identity across the operation is by coordinates (names of new columns depend on set iteration order)',
 ]
 BOUNDS = {
@@ -67,11 +79,20 @@ BOUNDS = {
                                  'g2 with its corner refined once: corner column, its ring, both, and refine>refine',
               'three steps': 'split_column > refine (one piece / both) > refine (everything created) on r3x3, mixed6',
               'layer tops': 'refine_layers also on the 3 x 3 with its top at 137.5 m and on the shipped g5 (top away from 0)',
+              'chains': 'three global refinements: r3x2 x {False,True}^3, r3x3, t8, mixed6+decomposed (False,False,False); nested three '
+                        'deep on every refinable single column: r3x3 x {False,True}^3 (inside) + (F,F,F) (created), t8 and '
+                        'mixed6+decomposed and r3x2 two sequences each; polygons at rotation 0: decompose > refine > refine; '
+                        'histories > split_column every quadrilateral x node: r3x3 and mixed6 (refine: singles and pairs x 4 modes, '
+                        'disks / rings / full plain; decompose; reduce dropping each column [> refine of each other column]; '
+                        'delete column i + connections of neighbour j + check(fix) [> refine all on r3x3]), r3x3 single > created, '
+                        'polygons at rotation 0 decomposed',
               'compositions': 'split> on r3x3, mixed6; refine>refine on r3x3, t8 singles; polygon>refine at rotation 0, piece 0 and all'},
     'thorough': {'geometries': ['r3x3', 'r4x3', 't8', 'mixed6', 'mixed6+decomposed', 'polygons', 'layers',
                                 'r3x3+refined', 'r4x3+refined', 't8+refined', 'g7', 'g7+refined(sample)'],
                  'regions': 'every non-empty subset where <= 12 columns (511 / 4095 / 255 / 4095); larger: all singles, '
                             'all neighbour pairs, all disks, all rings with hole, full',
+                 'chains': 'as quick, with r4x3 among the histories, every {False,True}^3 sequence on t8 and mixed6+decomposed, '
+                           'nested (created) also (True,True,True), polygons at rotations 0 and 1',
                  'polygons': 'all 1253 x 2', 'layers': 'every subset of 3 and of 4 layers x factor 2,3,4, also with the atmosphere layer named like a subsurface layer'},
 }
 TECHNIQUE = ('bounded exhaustive enumeration of refinement regions, modes and polygon shapes on the real methods '
@@ -216,6 +237,8 @@ def base(name):
     root = name[:-len('+refined')] if plus else name
     if root == 'r3x3':
         geo = geo_rect(*R3)
+    elif root == 'r3x2':
+        geo = geo_rect(R3[0], R3[1][:2], R3[2], [(0, -4.), (2, -12.), (4, -13.), (5, -31.)])
     elif root == 'r3x3n':
         # layer names as in the shipped g4.dat: the atmosphere layer is called ' 1', a name the layer-name
         # generator also gives to a subsurface layer
@@ -1044,6 +1067,13 @@ def all_cases(tier):
         raise
     except Exception:
         cases.append({'op': 'build', 'geo': 'r3x3+refined'})
+    try:
+        with quiet():
+            cases.extend(chain_cases(tier))
+    except core.HarnessError:
+        raise
+    except Exception:
+        cases.append({'op': 'build', 'geo': 'mixed6+decomposed'})
     if tier == 'quick':
         family(refine_cases, 'r3x3+refined', 'sample')
         family(refine_cases, 'g7', 'sample', bisects=[False, True])
@@ -1061,11 +1091,294 @@ def all_cases(tier):
     return cases
 
 
+# ----------------------------------------------------------------------------------- chains on ONE object
+
+def in_polygon_columns(geo, pg, tol):
+    m, byid = mesh_of(geo)
+    ids = set(m.columns_within(pg, tol))
+    return [c for c in canon_cols(geo) if id(c) in ids]
+
+
+def conforming(geo):
+    """Reference adjacency == the connection list (precondition after a step that is not one of the
+    operations of this property)."""
+    m, byid = mesh_of(geo)
+    adj = set(m.adjacent_pairs())
+    conn = set(frozenset((id(con.column[0]), id(con.column[1]))) for con in geo.connectionlist)
+    return adj == conn and len(conn) == len(geo.connectionlist) and not m.overfull_edges()
+
+
+JUDGE_PREVIOUS_MAX = 40000      # (columns before the step) x (columns after it)
+
+
+def step_name(st):
+    if st['do'] == 'refine':
+        return 'refine(%s,%s)' % (st['who'] if isinstance(st['who'], str) else 'region', st['bisect'])
+    if st['do'] == 'decompose':
+        return 'decompose'
+    return st['do']
+
+
+def run_chain(case, results):
+    """A sequence of operations on ONE geometry object (so whatever one step leaves behind in the object is
+    there for the next), the property judged after every step of it that is an operation of the property:
+    against the columns before that step and against the original columns.  Steps that are not operations of the
+    property (reduce, delete a column and some connections and let check(fix) repair them) are only histories:
+    after them the geometry must be conforming by the reference (else the chain stops, outcome recorded) and the
+    snapshots are taken afresh.  case['splits'] == 'every': after the chain, split_column of every quadrilateral
+    at every one of its nodes, each on a deep copy of the chain's result, judged against that result;
+    [column, node]: that one only (replay).
+    Appends (case, violations, nontrivial, outcome, stats) to results."""
+    stats = {'lattice': 0, 'on_side': 0, 'changed': 0}
+    viol = []
+    target = None
+    if 'base' in case:
+        geo, cname = geo_polygon(case['base'], case['mids'], case['rot'])
+        tcol = geo.column[cname]
+    else:
+        geo = copy.deepcopy(base(case['geo']))
+        tcol = canon_cols(geo)[case['target']] if case.get('target') is not None else None
+    orig = Snap(geo)
+    tol = max(1e-9 * max(1.0, orig.size), orig.eps)
+    tpoly = None
+    if tcol is not None:
+        m0, _ = mesh_of(geo)
+        tpoly = m0.polygon(id(tcol))
+    prev = orig            # snapshot before the current step
+    prevprev = None        # snapshot before the previous step
+    done = []
+    outcome = 'chain:completed'
+    changed_any = False
+
+    def add(site, found, klass):
+        for clause, text in found:
+            viol.append(('%s|%s|%s|%s' % (ID, site, clause, klass), 'after %s: %s' % (klass, text)))
+
+    for k, st in enumerate(case['steps']):
+        done.append(step_name(st))
+        klass = 'chain=' + '>'.join(done)
+        do = st['do']
+        site = {'refine': 'refine', 'decompose': 'decompose_columns'}.get(do)
+        try:
+            with quiet(), core.timelimit(300):
+                if do in ('refine', 'decompose'):
+                    who = st['who']
+                    if who == 'all':
+                        targets = None
+                    elif who == 'inside' or (who == 'created' and k == 0):
+                        targets = in_polygon_columns(geo, tpoly, tol)
+                    elif who == 'created':
+                        targets = new_columns(prevprev, geo)
+                    elif who == 'polygons':
+                        targets = [c for c in canon_cols(geo) if c.num_nodes > 4]
+                    else:
+                        cc = canon_cols(geo)
+                        targets = [cc[i] for i in who]
+                    if targets is not None and not targets:
+                        outcome = 'chain:no-targets'
+                        break
+                    if do == 'refine':
+                        cols2, nbr2 = adjacency(geo)
+                        idx2 = dict((id(c), i) for i, c in enumerate(cols2))
+                        S2 = list(range(len(cols2))) if targets is None else [idx2[id(c)] for c in targets]
+                        if not refinable(geo, cols2, nbr2, S2):
+                            outcome = 'chain:not-refinable'
+                            break
+                        if targets is None:
+                            geo.refine(bisect=st['bisect'])
+                        else:
+                            geo.refine([c.name for c in targets], bisect=st['bisect'])
+                    else:
+                        geo.decompose_columns([c.name for c in targets])
+                elif do == 'reduce':
+                    cc = canon_cols(geo)
+                    keep = [c.name for i, c in enumerate(cc) if i not in st['drop']]
+                    geo.reduce(keep)
+                elif do == 'unlink+fix':
+                    cc = canon_cols(geo)
+                    x, y = cc[st['column']], cc[st['strip']]
+                    geo.delete_column(x.name)
+                    for con in [con for con in geo.connectionlist if y in con.column]:
+                        geo.delete_connection(tuple(c.name for c in con.column))
+                    geo.check(fix=True, silent=True)
+                    geo.setup_block_name_index()
+                    geo.setup_block_connection_name_index()
+                else:
+                    raise core.HarnessError('unknown step %r' % (st,))
+        except core.CaseTimeout:
+            if site:
+                viol.append(('%s|%s|timeout|%s' % (ID, site, klass), 'did not return within 300 s'))
+            outcome = 'chain:timeout'
+            break
+        except core.HarnessError:
+            raise
+        except Exception as e:
+            if site:
+                viol.append(('%s|%s|raises-%s|%s' % (ID, site, type(e).__name__, klass),
+                             '%s raised %s: %s' % (site, type(e).__name__, str(e)[:200])))
+            outcome = 'chain:raised' if site else 'chain:history-raised'
+            break
+        if site:
+            s1 = {}
+            with quiet():
+                found = []
+                if len(prev.cols) * len(geo.columnlist) <= JUDGE_PREVIOUS_MAX or prev is orig:
+                    found = judge(prev, geo, connections=True, stats=s1)
+                    for kk in ('lattice', 'on_side', 'changed'):
+                        stats[kk] += s1.get(kk, 0)
+                    changed_any = changed_any or s1.get('changed', 0) > 0
+                if prev is not orig:
+                    s2 = {}
+                    seen = set(c for c, t in found)
+                    found += [(c, 'against the original columns: ' + t)
+                              for c, t in judge(orig, geo, connections=True, stats=s2) if c not in seen]
+                    for kk in ('lattice', 'on_side'):
+                        stats[kk] += s2.get(kk, 0)
+            add(site, found, klass)
+            if found:
+                outcome = 'chain:violated'
+                break
+            prevprev, prev = prev, Snap(geo)
+        else:
+            with quiet():
+                ok = conforming(geo)
+            if not ok or not geo.columnlist:
+                outcome = 'chain:history-not-conforming'
+                break
+            orig = prev = Snap(geo)
+            prevprev = None
+    stats['columns_after'] = len(geo.columnlist)
+    results.append((case, viol, changed_any, outcome, stats))
+    if outcome != 'chain:completed' or not case.get('splits'):
+        return
+    # split_column of every quadrilateral at every node, each on a deep copy
+    cols = canon_cols(geo)
+    nodes = canon_nodes(geo)
+    nidx = dict((id(n), i) for i, n in enumerate(nodes))
+    pairs = [(i, nidx[id(n)]) for i, c in enumerate(cols) if len(c.node) == 4 for n in c.node]
+    if case['splits'] != 'every':
+        pairs = [tuple(case['splits'])]
+    klass = 'chain=' + '>'.join(done + ['split']) + ',quad'
+    for ci, ni in pairs:
+        sub = dict(case, splits=[ci, ni])
+        st2 = {}
+        try:
+            with quiet(), core.timelimit(120):
+                g2 = copy.deepcopy(geo)
+                ok = g2.split_column(canon_cols(g2)[ci].name, canon_nodes(g2)[ni].name)
+        except core.CaseTimeout:
+            results.append((sub, [('%s|split_column|timeout|%s' % (ID, klass), 'did not return within 120 s')],
+                            True, 'chain-split:timeout', st2))
+            continue
+        except core.HarnessError:
+            raise
+        except Exception as e:
+            results.append((sub, [('%s|split_column|raises-%s|%s' % (ID, type(e).__name__, klass),
+                                   'split_column raised %s: %s' % (type(e).__name__, str(e)[:200]))],
+                            True, 'chain-split:raised', st2))
+            continue
+        if ok is not True:
+            results.append((sub, [('%s|split_column|returns-%r|%s' % (ID, ok, klass),
+                                   'split_column of a quadrilateral at one of its nodes returned %r' % (ok,))],
+                            True, 'chain-split:refused', st2))
+            continue
+        with quiet():
+            found = judge(prev, g2, connections=True, stats=st2)
+        v2 = [('%s|split_column|%s|%s' % (ID, clause, klass), 'after %s: %s' % (klass, text)) for clause, text in found]
+        results.append((sub, v2, st2.get('changed', 0) > 0, 'chain-split:%s' % ('changed' if st2.get('changed') else 'unchanged'), st2))
+
+
+def chain_cases(tier):
+    quick = tier == 'quick'
+    cases = []
+    F, T = False, True
+
+    def rf(who, b):
+        return {'do': 'refine', 'who': who, 'bisect': b}
+    seqs3 = list(itertools.product((F, T), repeat=3))
+    # (a) three refinements in a row of the whole geometry
+    for g, seqs in (('r3x2', seqs3), ('r3x3', [(F, F, F)]), ('t8', [(F, F, F)] if quick else seqs3),
+                    ('mixed6+decomposed', [(F, F, F)])):
+        for bs in seqs:
+            cases.append({'op': 'chain', 'geo': g, 'steps': [rf('all', b) for b in bs]})
+    # (b) nested local refinement, three deep: one column, then everything inside it, then again; and: one
+    #     column, then everything the step before created (with the transition columns round it), then again
+    for g, seqs in (('r3x3', seqs3), ('t8', [(F, F, F), (T, T, T)] if quick else seqs3),
+                    ('mixed6+decomposed', [(F, F, F)] if quick else seqs3), ('r3x2', [(F, F, F), ('x', 'y', 'x')])):
+        try:
+            geo = base(g)
+        except core.HarnessError:
+            raise
+        except Exception:
+            cases.append({'op': 'build', 'geo': g})
+            continue
+        cols, nbr = adjacency(geo)
+        for i in range(len(cols)):
+            if not refinable(geo, cols, nbr, [i]):
+                continue
+            for bs in seqs:
+                cases.append({'op': 'chain', 'geo': g, 'target': i, 'steps': [rf('inside', b) for b in bs]})
+            for bs in ([(F, F, F)] if quick else [(F, F, F), (T, T, T)]):
+                cases.append({'op': 'chain', 'geo': g, 'target': i, 'steps': [rf('created', b) for b in bs]})
+    # (c) decompose_columns of a straight-node polygon, then two refinements of what it was cut into
+    for bname, E, r in polygon_cases():
+        if r != 0 and (quick or r != 1):
+            continue
+        cases.append({'op': 'chain', 'base': bname, 'mids': E, 'rot': r,
+                      'steps': [{'do': 'decompose', 'who': 'inside'}, rf('inside', F), rf('inside', F)]})
+    # (d) histories followed by split_column of every quadrilateral at every node
+    for g in (('r3x3', 'mixed6') if quick else ('r3x3', 'mixed6', 'r4x3')):
+        geo = base(g)
+        cols, nbr = adjacency(geo)
+        n = len(cols)
+        regs = regions_for(geo, 'families')
+        small = [S for S in regs if len(S) <= 2]
+        for S in regs:
+            if not refinable(geo, cols, nbr, S):
+                continue
+            for b in (BISECT if S in small else (F,)):
+                cases.append({'op': 'chain', 'geo': g, 'steps': [rf(S, b)], 'splits': 'every'})
+        if any(c.num_nodes > 4 for c in cols):
+            cases.append({'op': 'chain', 'geo': g, 'steps': [{'do': 'decompose', 'who': 'polygons'}], 'splits': 'every'})
+            for i, c in enumerate(cols):
+                if c.num_nodes > 4:
+                    cases.append({'op': 'chain', 'geo': g, 'steps': [{'do': 'decompose', 'who': [i]}], 'splits': 'every'})
+        # reduce (drop one column), then refine one of the others, then the splits
+        for i in range(n):
+            cases.append({'op': 'chain', 'geo': g, 'steps': [{'do': 'reduce', 'drop': [i]}], 'splits': 'every'})
+            for j in range(n - 1):
+                cases.append({'op': 'chain', 'geo': g, 'steps': [{'do': 'reduce', 'drop': [i]}, rf([j], F)],
+                              'splits': 'every'})
+        # delete a column, delete the connections of one of its neighbours, check(fix=True)
+        for i in range(n):
+            for j in sorted(nbr[i]):
+                cases.append({'op': 'chain', 'geo': g, 'steps': [{'do': 'unlink+fix', 'column': i, 'strip': j}],
+                              'splits': 'every'})
+                if not quick or g == 'r3x3':
+                    cases.append({'op': 'chain', 'geo': g, 'steps': [{'do': 'unlink+fix', 'column': i, 'strip': j},
+                                                                     rf('all', F)], 'splits': 'every'})
+    # two refinements, then the splits
+    for i in range(9):
+        cases.append({'op': 'chain', 'geo': 'r3x3', 'target': i, 'steps': [rf('created', F), rf('created', F)],
+                      'splits': 'every'})
+    # decomposed polygon, then the splits (ring of neighbours and the pieces)
+    for bname, E, r in polygon_cases():
+        if r != 0 and (quick or r != 1):
+            continue
+        cases.append({'op': 'chain', 'base': bname, 'mids': E, 'rot': r,
+                      'steps': [{'do': 'decompose', 'who': 'inside'}], 'splits': 'every'})
+    return cases
+
+
 _cases = {}
 
 
 def case_cost(c):
     g = c.get('geo', '')
+    if c['op'] == 'chain':
+        if c.get('splits'):
+            return 60 if len(c['steps']) > 1 and c['steps'][-1].get('who') in ('all', 'created') else 25
+        return 120 if c['steps'][0].get('who') == 'all' else 25
     if g.startswith('g2'):
         return 2000 if c['op'] == 'refine_all' else 100
     if g.startswith('g7+'):
@@ -1101,8 +1414,13 @@ def run_unit(unit, tier, rec):
     cases = _cases[tier]
     lo, hi = unit
     sampled = False
+    todo = []
     for case in cases[lo:hi]:
-        viol, nontrivial, outcome, stats = run_case(case)
+        if case['op'] == 'chain':
+            run_chain(case, todo)
+        else:
+            todo.append((case,) + run_case(case))
+    for case, viol, nontrivial, outcome, stats in todo:
         key = repr(sorted(case.items()))
         rec.case(key, nontrivial=nontrivial, outcome=outcome)
         for sig, what in viol:
@@ -1110,15 +1428,23 @@ def run_unit(unit, tier, rec):
         rec.count('lattice_points', stats.get('lattice', 0))
         rec.count('lattice_on_side', stats.get('on_side', 0))
         rec.count('old_columns_replaced', stats.get('changed', 0))
-        rec.count('cases:' + case['op'] + ('>' + case['then']['op'] if case.get('then') else '') +
-                  ('>' + case['then2']['op'] if case.get('then2') else '') +
-                  (':' + case['geo'] if 'geo' in case else ''), 1)
+        if case['op'] == 'chain':
+            rec.count('cases:chain:' + '>'.join(st['do'] for st in case['steps']) +
+                      ('>split' if isinstance(case.get('splits'), list) else '') + ':' + case.get('geo', 'polygons'), 1)
+        else:
+            rec.count('cases:' + case['op'] + ('>' + case['then']['op'] if case.get('then') else '') +
+                      ('>' + case['then2']['op'] if case.get('then2') else '') +
+                      (':' + case['geo'] if 'geo' in case else ''), 1)
         if nontrivial and not sampled and lo % 5 == 0:
             sampled = True
             rec.sample(dict(case, columns_after=stats.get('columns_after'), old_columns_replaced=stats.get('changed')))
 
 
 def replay(case):
+    if case['op'] == 'chain':
+        res = []
+        run_chain(case, res)
+        return [v for r in res for v in r[1]]
     viol, nontrivial, outcome, stats = run_case(case)
     return viol
 
@@ -1127,4 +1453,6 @@ def finalize(rec, tier):
     return {'dimensions': {'region': 'crossed (all subsets) for geometries of <= 12 columns, families otherwise',
                            'bisect': 'crossed (4 modes)', 'bisect_edge_columns': 'crossed (none / all outside neighbours)',
                            'polygon shapes': 'crossed (base x mid-side subset x rotation)',
-                           'layer subsets x factor': 'crossed'}}
+                           'layer subsets x factor': 'crossed',
+                           'history on one object': 'bounded: chains of 3 operations; every quadrilateral x node split '
+                                                    'after every history of the stated families'}}
